@@ -457,7 +457,7 @@ func cmdCheck(args []string) {
 						if strings.HasSuffix(v.Solver, "[int]") || strings.HasSuffix(v.Solver, "[bv]") {
 							// proved in the other encoding (fallback or `int:` hint): no cheap re-run exists;
 							// claimed only when the whole attempt was fast
-							if v.Seconds > 6 {
+							if v.Seconds > 15 {
 								v.Status = "unstable"
 								v.Solver = fmt.Sprintf("discharged in the other encoding only after %.1fs", v.Seconds)
 								return
@@ -468,7 +468,7 @@ func cmdCheck(args []string) {
 								c2.perSolver = map[string]int{}
 								c2.mu = &sync.Mutex{}
 								v2 := c2.solve(ex2, v.Obl)
-								if v2.Status != "unsat" || v2.Seconds > 6 {
+								if v2.Status != "unsat" || v2.Seconds > 15 {
 									v.Status = "unstable"
 									v.Solver = fmt.Sprintf("other encoding: %s after %.1fs under seed %d", v2.Status, v2.Seconds, sd)
 									return
@@ -488,11 +488,7 @@ func cmdCheck(args []string) {
 								v.Solver = fmt.Sprintf("not re-discharged with a third of the budget under seed %d", sd)
 								return
 							}
-							if v2.Seconds > 5 {
-								v.Status = "unstable"
-								v.Solver = fmt.Sprintf("re-discharged only after %.1fs under seed %d", v2.Seconds, sd)
-								return
-							}
+
 						}
 					}(v)
 				}
